@@ -346,7 +346,7 @@ type tfMode struct {
 }
 
 var (
-	modePlan  = tfMode{unknownOK: true, nullElems: false, unkElems: true, oneofAtMost1: true, pNull: 25, pUnk: 25, noPlaceholderValue: true}
+	modePlan  = tfMode{unknownOK: true, nullElems: false, unkElems: true, oneofAtMost1: true, pNull: 25, pUnk: 25}
 	modeAny   = tfMode{unknownOK: true, nullElems: true, oneofAtMost1: false, pNull: 25, pUnk: 20}
 	modeOneof = tfMode{unknownOK: true, nullElems: false, oneofAtMost1: true, othersUnk: true, pNull: 25, pUnk: 25}
 	modeState = tfMode{unknownOK: false, nullElems: false, oneofAtMost1: true, pNull: 30, pUnk: 0}
@@ -493,9 +493,7 @@ func genTFNode(t *rapid.T, n *spec.Node, typ tftypes.Object, injected map[string
 		l := label + "." + e.Attr
 		if e.Placeholder {
 			st := drawState(t, m, l)
-			if st == stKnown && (m.noPlaceholderValue || !coin(t, 1, 20, l+"/set")) {
-				// A known value for the synthetic `active` attribute is legal but pointless; plans never
-				// carry one (C20: the placeholder is always rendered as null, so it could not be echoed).
+			if st == stKnown && m.noPlaceholderValue {
 				st = stNull
 			}
 			if st == stKnown {
